@@ -112,6 +112,17 @@ template <typename T> static T& gslot(int k) {
     return *reinterpret_cast<T*>(g_slot_page[k]);
 }
 
+// Projective OUTPUT objects likewise: junk bytes (no bool inside), a normalised point (z = 1), the identity (z = 0), a point with another z.
+static unsigned g_dirty_proj;
+template <typename P> static void dirty_projective(P& p) {
+    switch (g_dirty_proj++ % 4) {
+    case 0: memset(&p, 0xA5, sizeof p); break;
+    case 1: p.copy(P::one); break;
+    case 2: p.copy(P::zero); break;
+    default: p.multiply2(P::one); break;
+    }
+}
+
 #define OP(name) if (!strcmp(op, name))
 
 static void poison(void* p, size_t n) { memset(p, 0xA5, n); }
@@ -326,8 +337,8 @@ static bool curve_ops(const char* op, bool is_g1) {
     G a, b, o;
     GA pa, pb, po;
     BigInt<256> k;
-    poison(&o, sizeof o);
-    poison(&po, sizeof po);
+    dirty_projective(o);
+    dirty_affine(po);
     OP("add") { ld(1, a); ld(2, b); o.add(a, b); st(o); return true; }
     OP("addmixed") { ld(1, a); ld(2, pb); o.add(a, pb); st(o); return true; }
     OP("dbl") { ld(1, a); o.multiply2(a); st(o); return true; }
@@ -425,7 +436,7 @@ static bool capi_ops(const char* op) {
     G1Affine pa1, pb1, po1; G2Affine pa2, pb2, po2;
     BigInt<256> k;
     Fq12 e;
-    poison(&o1, sizeof o1); poison(&o2, sizeof o2); poison(&po1, sizeof po1); poison(&po2, sizeof po2); poison(&e, sizeof e);
+    dirty_projective(o1); dirty_projective(o2); dirty_affine(po1); dirty_affine(po2); poison(&e, sizeof e);
     OP("g1_add") { ld(1, a1); ld(2, b1); embedded_pairing_bls12_381_g1_add(CG1(&o1), CG1(&a1), CG1(&b1)); st(o1); return true; }
     OP("g1_add_mixed") { ld(1, a1); ld(2, pb1); embedded_pairing_bls12_381_g1_add_mixed(CG1(&o1), CG1(&a1), CG1A(&pb1)); st(o1); return true; }
     OP("g1_negate") { ld(1, a1); embedded_pairing_bls12_381_g1_negate(CG1(&o1), CG1(&a1)); st(o1); return true; }
